@@ -511,8 +511,12 @@ class POP3SubprocessInterface:
         # The subprocess will detect this and create a POP3ClientProxy
         # instead of an IMAPClientProxy.
         #
+        # NOTE: The `+` in the frame header marks it as ours: the IMAP front
+        #       end never writes one, so an IMAP client whose first line
+        #       happens to be `POP3` can not switch its connection over.
+        #
         pop3_ident = b"POP3"
-        self.writer.write(f"{{{len(pop3_ident)}}}\n".encode("latin-1"))
+        self.writer.write(f"{{{len(pop3_ident)}+}}\n".encode("latin-1"))
         self.writer.write(pop3_ident)
         await self.writer.drain()
 
